@@ -275,6 +275,74 @@ class FileSplicer:
                         self.ed.replace(src.t(q).start, src.t(q).end, ' { Ok(vx_v) => vx_v, Err(vx_e) => return Err(From::from(vx_e)) }')
                         applied.append('N16')
 
+        # ---- closures: N6 (parameter patterns) + N15 (closure contracts)
+        closures = self.find_closures(it)
+        for s in subs:
+            if s.word == 'closure':
+                ci = int(s.args[0])
+                if ci >= len(closures):
+                    raise SpliceError('lost anchor: fn %s closure %d (has %d)' % (key, ci, len(closures)))
+                (p_open, p_close, b_start, b_end, is_block) = closures[ci]
+                kv = dict(a.split('=', 1) for a in s.args[1:] if '=' in a)
+                if 'params' in kv:
+                    self.ed.replace(src.t(p_open).end, src.t(p_close).start, kv['params']); applied.append('N6')
+                t, ids = mark_obligations(s.text); clause_ids += ids
+                pre = kv.get('prelude', '')
+                if is_block:
+                    self.ed.insert(src.t(p_close).end, ' ' + t + ' ')
+                    if pre: self.ed.insert(src.t(b_start).end, ' ' + pre + ' ')
+                else:
+                    self.ed.insert(src.t(p_close).end, ' ' + t + ' { ' + pre + ' ')
+                    self.ed.insert(src.t(b_end).end, ' }')
+            if s.word == 'foriter':
+                li = int(s.args[0]); name = s.args[1]
+                if li >= nloops or an.loops[li].kind != 'for':
+                    raise SpliceError('lost anchor: fn %s loop %d is not a for loop' % (key, li))
+                L = an.loops[li]
+                q = L.kw_si + 1
+                while not src.is_id(q, 'in'):
+                    q = src.skip_group(q)
+                self.ed.insert(src.t(q).end, ' %s:' % name)
+
+        # ---- N10 (method form): `RECV.m(ARGS)` -> `wrapper(RECV, ARGS)` for provided trait methods that cannot carry a specification
+        for s in subs:
+            if s.word == 'wrapcall':
+                k_ord = int(s.args[0]); meth = s.args[1]; wrapper = s.args[2]
+                hits = [k for k in find_token_seq(src, it.body_open, it.body_close, ['.', meth, '('])]
+                if k_ord >= len(hits):
+                    raise SpliceError('lost anchor: fn %s method call .%s( #%d (found %d)' % (key, meth, k_ord, len(hits)))
+                k = hits[k_ord]
+                rs = self.postfix_start(k - 1)
+                empty = src.match(k + 2) == k + 3
+                kv = dict(a.split('=', 1) for a in s.args[3:] if '=' in a)
+                if 'bind' in kv:
+                    # `{ let NAME = RECV; <ghost> wrapper(NAME, ARGS) }`  (N10 + N19)
+                    t, ids = mark_obligations(s.text); clause_ids += ids
+                    self.ed.insert(src.t(rs).start, '{ let %s = ' % kv['bind'])
+                    self.ed.replace(src.t(k).start, src.t(k + 2).end, '; ' + t + ' ' + wrapper + '(' + kv['bind'] + ('' if empty else ', '))
+                    self.ed.insert(src.t(src.match(k + 2)).end, ' }')
+                    applied.append('N19')
+                else:
+                    self.ed.insert(src.t(rs).start, wrapper + '(')
+                    self.ed.replace(src.t(k).start, src.t(k + 2).end, '' if empty else ', ')
+                applied.append('N10')
+
+        # ---- N19: name the receiver temporary of a method call: `RECV.m(ARGS)` -> `{ let mut NAME = RECV; <ghost> NAME.m(ARGS) }`
+        for s in subs:
+            if s.word == 'bindrecv':
+                k_ord = int(s.args[0]); meth = s.args[1]; name = s.args[2]
+                hits = [k for k in find_token_seq(src, it.body_open, it.body_close, ['.', meth, '('])]
+                if k_ord >= len(hits):
+                    raise SpliceError('lost anchor: fn %s method call .%s( #%d (found %d)' % (key, meth, k_ord, len(hits)))
+                k = hits[k_ord]
+                rs = self.postfix_start(k - 1)
+                ce = src.match(k + 2)
+                t, ids = mark_obligations(s.text); clause_ids += ids
+                self.ed.insert(src.t(rs).start, '{ let mut %s = ' % name)
+                self.ed.replace(src.t(k).start, src.t(k).end, '; ' + t + ' ' + name + '.')
+                self.ed.insert(src.t(ce).end, ' }')
+                applied.append('N19')
+
         # ---- N4: or-pattern split
         for s in subs:
             if s.word == 'orsplit':
@@ -337,6 +405,41 @@ class FileSplicer:
                 else:
                     self.ed.replace(src.t(k).start, src.t(k + 1).end, '.vx_await()')
                 applied.append('N2')
+
+    def find_closures(self, it: Item):
+        """closures in textual order: (params '|' open si, params '|' close si, body first si, body last si, body_is_block)"""
+        src = self.src
+        out = []
+        k = it.body_open + 1
+        while k < it.body_close:
+            if src.is_p(k, '|'):
+                prev = src.t(k - 1)
+                starts = (prev.kind == 'punct' and prev.text in ('(', ',', '=', '{', ';', '>')) or (prev.kind == 'ident' and prev.text in ('move', 'return'))
+                if starts:
+                    po = k
+                    if src.is_p(k + 1, '|') and src.t(k).end == src.t(k + 1).start:
+                        pc = k + 1
+                    else:
+                        pc = k + 1
+                        while not src.is_p(pc, '|'):
+                            pc = src.skip_group(pc)
+                    b = pc + 1
+                    if src.is_p(b, '-') and src.is_p(b + 1, '>'):
+                        # explicit return type: body must be a block
+                        while not src.is_p(b, '{'): b += 1
+                    if src.is_p(b, '{'):
+                        out.append((po, pc, b, src.match(b), True))
+                        k = pc + 1; continue
+                    e = b
+                    while e < it.body_close:
+                        t = src.t(e)
+                        if t.kind == 'punct' and t.text in (',', ';'): break
+                        if t.kind == 'punct' and t.text in CLOSE: break
+                        e = src.skip_group(e)
+                    out.append((po, pc, b, e - 1, False))
+                    k = pc + 1; continue
+            k += 1
+        return out
 
     def postfix_start(self, k):
         """sig index where the postfix expression ending at sig index k starts"""
@@ -403,6 +506,25 @@ class FileSplicer:
                 q = m - 1; continue
             q -= 1
         sa = q + 1
+        # block-like statements end at their closing brace, not at the next ';'
+        t0 = src.t(sa)
+        if t0.kind == 'lifetime' and src.is_p(sa + 1, ':'):
+            t0 = src.t(sa + 2); first = sa + 2
+        else:
+            first = sa
+        if t0.kind == 'ident' and t0.text in ('for', 'while', 'loop', 'if', 'match'):
+            q = first + 1
+            while True:
+                while not src.is_p(q, '{'):
+                    q = src.skip_group(q)
+                e = src.match(q)
+                if t0.text == 'if' and src.is_id(e + 1, 'else'):
+                    q = e + 2
+                    continue
+                break
+            if not (src.is_p(e + 1, '.') or src.is_p(e + 1, '?')):
+                if e >= si:
+                    return sa, (e + 1 if src.is_p(e + 1, ';') else e)
         q = si
         while q < blk_close:
             t = src.t(q)
